@@ -374,7 +374,7 @@ def tie(ctx):
         from aldy.lpinterface import escape_name
         lookup = {escape_name(f"CN_{n}_{i}"): [n, i] for n in list(d["configs"]) + ["PSEUDO"] for i in range(-1, d["max_cn"] + 1)}
         reqs.append({"op": "cn_fold", "del": real["gene"].deletion_allele(),
-                     "yields": [[lib.frac(o), [lookup[v] for v in sol]] for (_, o, sol) in real["yields"]]})
+                     "yields": [[lib.frac(o), [lookup.get(v, ["?" + v, 0]) for v in sol]] for (_, o, sol) in real["yields"]]})
         runs.append((d, real))
     # _filter_configs
     fcases = filter_cases(r, pool, 60 if quick else 600)
